@@ -59,6 +59,31 @@ namespace xv
         template <class T, class X>
         static X f(X a, X const& b, long) { a /= b; return a; }
     };
+    struct op_sub_assign
+    {
+        template <class T, class X>
+        static X f(X a, X const& b, long) { a -= b; return a; }
+    };
+    struct op_mul_assign
+    {
+        template <class T, class X>
+        static X f(X a, X const& b, long) { a *= b; return a; }
+    };
+    struct op_and_assign
+    {
+        template <class T, class X>
+        static X f(X a, X const& b, long) { a &= b; return a; }
+    };
+    struct op_or_assign
+    {
+        template <class T, class X>
+        static X f(X a, X const& b, long) { a |= b; return a; }
+    };
+    struct op_xor_assign
+    {
+        template <class T, class X>
+        static X f(X a, X const& b, long) { a ^= b; return a; }
+    };
 
     // ---- C08 ----
     XV_OP1(op_ceil, xs::ceil(a))
@@ -86,6 +111,11 @@ namespace xv
         reg_b<op_div>("C02", "div", ft);
         reg_b<op_div_fn>("C02", "div.fn", ft);
         reg_b<op_div_assign>("C02", "div.assign", ft);
+        reg_b<op_sub_assign>("C02", "sub.assign", ft);
+        reg_b<op_mul_assign>("C02", "mul.assign", ft);
+        reg_b<op_and_assign>("C02", "and.assign", ft);
+        reg_b<op_or_assign>("C02", "or.assign", ft);
+        reg_b<op_xor_assign>("C02", "xor.assign", ft);
         reg_u<op_sqrt>("C02", "sqrt", ft);
         reg_u<op_neg>("C02", "neg", ft);
         reg_u<op_neg_fn>("C02", "neg.fn", ft);
